@@ -1,12 +1,36 @@
 HOOK_COMMITS = []
 NOTES = ("Static analysis only: no check calls a compute function, method, operator or constructor of vector. "
-         "Exit 0 held / 1 VIOLATION / 2 ANALYSIS-ERROR. Known findings: /verif/known_findings.json.")
-TB = "Trusted: python ast/inspect; the link step (import of vector._compute.* runs only table-building top-level code); verifstat engines (DESIGN.md section 2)."
+         "Exit 0 held / 1 VIOLATION / 2 ANALYSIS-ERROR. Known findings: /verif/known_findings.json. "
+         "Self-test corpora (mutants that must be caught, behaviour-preserving edits that must stay silent): "
+         "`/venv/bin/python -m verifstat selftest`.")
+TB = ("Trusted: python ast/inspect; the link step (importing vector._compute.* runs only table-building top-level "
+      "code, never a compute function); the verifstat engines (DESIGN.md section 2). ")
+
 CHECKS = [
+ {"id": "C01", "level": "proof",
+  "text": "Every one of the 2404 dispatch-table entries (hand-written and generated) is lifted to a coordinate-independent template (accessor and operation symbols validated by ring value number) and must equal the template of a frozen, individually-justified base of its module: derived variants provably denote the same function of their operands whatever the storage system, with consistent declared result classes. The 82 dispatchers are checked to look up and feed variants in the same operand/group order. Proof level on the derived variants because straight-line code has an exact expression semantics and the normal form is canonical in its fragment.",
+  "design_ref": "DESIGN.md section 3, C01", "note": TB + "tables/bases.json (225 frozen bases with reasons) and tables/dispatch.json are part of the trusted base; agreement between two native bases of one module is NOT decided here (see C02/C09/C11 for the parts that are). Real arithmetic; rounding out of scope.",
+  "technique": "template lifting + algebraic value numbering (ring normal form) over all table entries; AST rules on dispatch()"},
+ {"id": "C09", "level": "proof",
+  "text": "Ring-normal-form proofs on the Cartesian boost kernels: Minkowski product preserved, inverses, axis boosts equal boost_beta3 along the axis, gamma spelling equals beta spelling (sign gives direction), velocity-addition ratio of composed axis boosts, tau-stored variants keep tau and reuse the t-kernel rows, boost_p4(p) = boost_beta3(p/E), CM-frame identity; plus the dispatch structure of boost()/boostCM_of*() in the method layer.",
+  "design_ref": "DESIGN.md section 3, C09", "note": TB + "Identities hold over the reals wherever denominators do not vanish and sqrt arguments are non-negative (sqrt(e)^2 -> e); E > 0 is declared for the boost_p4/boost_beta3 equivalence. Float rounding / exact cancellation not decided. Other coordinate signatures are transported by C01.",
+  "technique": "inlined expression DAGs + polynomial/rational normal form with sqrt/copysign/abs rewrite rules"},
+ {"id": "C10", "level": "proof",
+  "text": "Ring-normal-form proofs on the rotation kernels: dot products and handedness preserved for rotateX/Y/Z, rotate_axis, rotate_quaternion (scaled by |q|^2) and all 12 Euler matrices; inverse and additivity about a fixed axis; rotate_axis about coordinate axes equals rotateX/Y/Z and ignores positive axis scale; quaternion form equals axis-angle form; every Euler matrix equals the composition of the repository's own axis rotations; rotate_nautical/rotate_euler forwarding and the 12-order table.",
+  "design_ref": "DESIGN.md section 3, C10", "note": TB + "Euler convention R_o0(-psi) R_o1(-theta) R_o2(-phi) was identified on the pinned tree as the one convention all 12 matrices satisfy (sibling agreement). Real arithmetic; large-angle float behaviour not decided.",
+  "technique": "inlined expression DAGs + trig polynomial normal form (sin^2 -> 1-cos^2, angle addition)"},
+ {"id": "C11", "level": "proof",
+  "text": "Ring-normal-form proofs on the Cartesian add/subtract/scale/dot/cross/unit kernels in 2D/3D/4D (commutativity, associativity, distributivity, bilinearity, metric signature, dot(v,v) = norm^2, cross-product laws incl. Lagrange identity, unit-vector laws) and on the polar natives' radial parts; structural check that negation is scale(-1) and that abs/square/sqrt/cbrt/power overloads reduce to rho|mag|tau by dimension in all four backends.",
+  "design_ref": "DESIGN.md section 3, C11", "note": TB + "unit-vector laws use nan_to_num(e) = e (finite operands). Azimuth of polar add/subtract not decided.",
+  "technique": "inlined expression DAGs + ring normal form; AST extraction of the ufunc/behavior tables"},
  {"id": "C12", "level": "proof",
   "text": "Exhaustive truth-table proof over all 184 signature pairs that not_equal is the negation of equal, that same-system equal/isclose are conjunctions over the stored coordinates with tolerances passed through, that isclose compares the same converted pairs as equal, symmetry and reflexivity; plus forwarding of the three methods. Proof level because the compute layer is straight-line code whose inlined DAG is its exact semantics and the boolean abstraction is finite.",
-  "design_ref": "DESIGN.md section 3, C12", "note": TB + " Comparison atoms are treated as independent booleans; a>=b is NOT(a<b) (no NaN, as the property states). lib.isclose semantics not modelled.",
+  "design_ref": "DESIGN.md section 3, C12", "note": TB + "Comparison atoms are treated as independent booleans; a>=b is NOT(a<b) (no NaN, as the property states). lib.isclose semantics not modelled.",
   "technique": "AST inlining to expression DAG + boolean abstraction + exhaustive truth tables"},
+ {"id": "C13", "level": "proof",
+  "text": "Interval abstract interpretation of every phi/deltaphi/theta/deltaangle/rho/rho2/mag/mag2/t/t2 entry under the documented storage preconditions proves the documented ranges and the definedness of the outermost sqrt/arccos; structural sign rules for tau and costheta/cottheta; the six classification predicates are reduced to linear forms in the cosine (resp. tau^2) and |tolerance| and their solution sets compared with the documented ones, including pairwise disjointness of the causal classes for every tolerance.",
+  "design_ref": "DESIGN.md section 3, C13", "note": TB + "Interval transfer functions are the standard real ones; open/closed endpoints are not distinguished. beta/gamma ranges and theta's unclamped arccos argument need relational facts and are not decided.",
+  "technique": "interval abstract interpretation + linear predicate-shape extraction on lifted templates"},
 ]
 _PENDING = "check not built yet in this revision of /verif (see DESIGN.md section 3 for the planned static rules); not claimed until it runs clean"
 NOT_APPLICABLE = [{"property_id": f"C{n:02d}", "reason": _PENDING} for n in range(1, 21) if f"C{n:02d}" not in {c["id"] for c in CHECKS}]
